@@ -1,8 +1,12 @@
 import AlphaG.Lemmas.DeconvField
 /-
-Law-free facts about the deconvolution model (`Model/Deconv.lean`): the production loop equals
-the plain one (`fast_eq_naive*`), the shapes of all results (`deconv_shape_*`, `yMatrix_padding`).
-The ordered-field facts (`ls_first_strict_min`, `deconv_nonneg*`) are in `DeconvBasicField.lean`.
+Facts about the deconvolution model (`Model/Deconv.lean`).
+Without any law of the carrier: the production loop equals the plain one (`fast_eq_naive*`,
+sections 1-2), the shapes of all results (`deconv_shape_*`, `ls_nonempty`, `yMatrix_padding`,
+section 3), the sweep as a pure `argminLoop` (`lsLoop_eq_argminLoop`, section 4).
+Over a linearly ordered field (`fieldOps top`): the first strict minimum wins
+(`ls_first_strict_min`, section 4), the reconstructed input is non-negative (`deconv_nonneg*`,
+section 5). Section 6: non-vacuity examples over `Rat`.
 -/
 namespace AlphaG.Deconv
 
@@ -471,5 +475,315 @@ theorem ls_first_strict_min (top : F) (b : Bool) (signal resp : List F)
     · simpa using hres
 
 end OrderedField
+
+/-! ### 5. The reconstructed input is non-negative -/
+
+theorem mem_zipWith_elim {β γ δ : Type} (f : β → γ → δ) (l₁ : List β) (l₂ : List γ) (x : δ)
+    (h : x ∈ List.zipWith f l₁ l₂) : ∃ a, a ∈ l₁ ∧ ∃ b, b ∈ l₂ ∧ x = f a b := by
+  induction l₁ generalizing l₂ with
+  | nil => simp at h
+  | cons a as ih =>
+    cases l₂ with
+    | nil => simp at h
+    | cons b bs =>
+      simp only [List.zipWith_cons_cons, List.mem_cons] at h
+      rcases h with rfl | h
+      · exact ⟨a, List.mem_cons_self, b, List.mem_cons_self, rfl⟩
+      · obtain ⟨a', ha, b', hb, hx⟩ := ih bs h
+        exact ⟨a', List.mem_cons_of_mem _ ha, b', List.mem_cons_of_mem _ hb, hx⟩
+
+section OrderedField
+open Lean Grind Std
+variable {F : Type} [Field F] [LE F] [LT F] [LawfulOrderLT F] [IsLinearOrder F] [OrderedRing F]
+  [DecidableLT F] [DecidableLE F]
+
+omit [DecidableLT F] [DecidableLE F] in
+theorem div_pos_of_neg_of_neg {s r : F} (hs : s < 0) (hr : r < 0) : 0 < s / r := by
+  rw [Field.div_eq_mul_inv]
+  exact OrderedRing.mul_pos_of_neg_of_neg hs ((Field.IsOrdered.inv_neg_iff).mpr hr)
+
+omit [LawfulOrderLT F] [IsLinearOrder F] [OrderedRing F] in
+theorem foldl_min_pos (top : F) (xs : List F) (x : F) (hx : 0 < x) (hxs : ∀ y ∈ xs, 0 < y) :
+    0 < xs.foldl (fieldOps top).min x := by
+  induction xs generalizing x with
+  | nil => exact hx
+  | cons y ys ih =>
+    simp only [List.foldl_cons, fieldOps_min]
+    apply ih
+    · have := hxs y List.mem_cons_self
+      split <;> assumption
+    · intro z hz; exact hxs z (List.mem_cons_of_mem _ hz)
+
+/-- The value put into `input[i]`: a minimum of quotients of negatives (or `0` for an empty
+window, which `nnGreedy` excludes). -/
+theorem stepVal_nonneg (top : F) (w rw : List F) (hw : ∀ s ∈ w, s < 0) (hrw : ∀ r ∈ rw, r < 0) :
+    0 ≤ stepVal (fieldOps top) w rw := by
+  unfold stepVal
+  have hall : ∀ x ∈ List.zipWith (fieldOps top).div w rw, 0 < x := by
+    intro x hx
+    obtain ⟨s, hs, r, hr, rfl⟩ := mem_zipWith_elim _ _ _ _ hx
+    exact div_pos_of_neg_of_neg (hw s hs) (hrw r hr)
+  split
+  · simp only [fieldOps_zero]; grind
+  · rename_i x xs hz
+    rw [hz] at hall
+    have := foldl_min_pos top xs x (hall x List.mem_cons_self)
+      (fun y hy => hall y (List.mem_cons_of_mem _ hy))
+    grind
+
+/-- … and strictly positive when the two windows are non-empty. -/
+theorem stepVal_pos (top : F) (w rw : List F) (hw : ∀ s ∈ w, s < 0) (hrw : ∀ r ∈ rw, r < 0)
+    (hwne : w ≠ []) (hrwne : rw ≠ []) : 0 < stepVal (fieldOps top) w rw := by
+  unfold stepVal
+  have hall : ∀ x ∈ List.zipWith (fieldOps top).div w rw, 0 < x := by
+    intro x hx
+    obtain ⟨s, hs, r, hr, rfl⟩ := mem_zipWith_elim _ _ _ _ hx
+    exact div_pos_of_neg_of_neg (hw s hs) (hrw r hr)
+  split
+  · rename_i hz
+    rcases List.zipWith_eq_nil_iff.mp hz with h | h
+    · exact absurd h hwne
+    · exact absurd h hrwne
+  · rename_i x xs hz
+    rw [hz] at hall
+    exact foldl_min_pos top xs x (hall x List.mem_cons_self)
+      (fun y hy => hall y (List.mem_cons_of_mem _ hy))
+
+/-- Invariant of the plain loop: every sample of `input` stays `≥ 0`. -/
+theorem naive_nonneg (top : F) (resp : List F) (off la : Nat)
+    (hresp : ∀ r ∈ respWindow resp off la, r < 0) (i : Nat) (res inp : List F)
+    (hinp : ∀ x ∈ inp, 0 ≤ x) :
+    ∀ x ∈ (naive (fieldOps top) resp off la i res inp).2, 0 ≤ x := by
+  fun_induction naive (fieldOps top) resp off la i res inp with
+  | case1 i res inp hb hany ih => exact ih hinp
+  | case2 i res inp hb hany ih =>
+    apply ih
+    intro x hx
+    rcases List.mem_or_eq_of_mem_set hx with hx | rfl
+    · exact hinp x hx
+    · apply stepVal_nonneg top _ _ _ hresp
+      intro s hs
+      have hany' : (window res i off la).any (fieldOps top).nonneg = false := by
+        simpa using hany
+      have := List.any_eq_false.mp hany' s hs
+      simp only [fieldOps_nonneg, decide_eq_true_eq] at this
+      grind
+  | case3 i res inp hb => exact hinp
+
+theorem loopResult_nonneg (top : F) (b : Bool) (signal resp : List F) (off la : Nat)
+    (hresp : ∀ r ∈ respWindow resp off la, r < 0) :
+    ∀ x ∈ (loopResult (fieldOps top) b signal resp off la).2, 0 ≤ x := by
+  rw [show loopResult (fieldOps top) b signal resp off la
+        = loopResult (fieldOps top) false signal resp off la by
+      cases b
+      · rfl
+      · exact loopResult_fast_eq_naive _ _ _ _ _]
+  apply naive_nonneg top resp off la hresp
+  intro x hx
+  rw [List.eq_of_mem_replicate hx, fieldOps_zero]
+  grind
+
+omit [LawfulOrderLT F] [IsLinearOrder F] [OrderedRing F] in
+theorem responseNeg_field (top : F) (resp : List F) (off la : Nat) :
+    ResponseNeg (fieldOps top) resp off la
+      ↔ off + la ≤ resp.length ∧ ∀ r ∈ respWindow resp off la, r < 0 := by
+  simp [ResponseNeg]
+
+/-- The guards of `nnGreedy` are exactly `ResponseNeg` and "the loop body is never entered with an
+empty window" (any carrier). -/
+theorem nnGreedy_eq_ok_iff' (b : Bool) (signal resp : List α) (off la : Nat)
+    (t : List α × α × List α) :
+    nnGreedy o b signal resp off la = .ok t ↔
+      (ResponseNeg o resp off la ∧ (0 < la ∨ signal.length < off))
+      ∧ t = ((loopResult o b signal resp off la).1,
+             sumSq o (loopResult o b signal resp off la).1,
+             (loopResult o b signal resp off la).2) := by
+  rw [nnGreedy_eq_ok_iff]
+  simp only [ResponseNeg, List.all_eq_true]
+  constructor
+  · rintro ⟨⟨h1, h2, h3, h4⟩, ht⟩
+    exact ⟨⟨⟨by omega, h3⟩, by omega⟩, ht⟩
+  · rintro ⟨⟨⟨h1, h3⟩, h4⟩, ht⟩
+    exact ⟨⟨by omega, by omega, h3, by omega⟩, ht⟩
+
+/-- Totality under the hypotheses of `deconv_nonneg`: no panic. -/
+theorem nnGreedy_total (b : Bool) (signal resp : List α) (off la : Nat) (hla : 0 < la)
+    (hresp : ResponseNeg o resp off la) :
+    ∃ res sum inp, nnGreedy o b signal resp off la = .ok (res, sum, inp) :=
+  ⟨_, _, _, (nnGreedy_eq_ok_iff' o b signal resp off la _).mpr ⟨⟨hresp, .inl hla⟩, rfl⟩⟩
+
+/-- `deconv_nonneg` from the run alone: `nnGreedy … = .ok _` already contains the `assert!` on the
+response window. -/
+theorem deconv_nonneg_of_ok (top : F) (b : Bool) (signal resp : List F) (off la : Nat)
+    (res : List F) (sum : F) (inp : List F)
+    (h : nnGreedy (fieldOps top) b signal resp off la = .ok (res, sum, inp)) :
+    ∀ x ∈ inp, 0 ≤ x := by
+  obtain ⟨⟨hresp, _⟩, ht⟩ := (nnGreedy_eq_ok_iff' (fieldOps top) b signal resp off la _).mp h
+  injection ht with h1 h2
+  injection h2 with h2 h3
+  subst h3
+  exact loopResult_nonneg top b signal resp off la ((responseNeg_field top resp off la).mp hresp).2
+
+/-- **Non-negativity of the greedy deconvolution.** (`hla` and `hresp` are what makes the run ok,
+see `nnGreedy_total`; the conclusion itself follows from `h`, see `deconv_nonneg_of_ok`.) -/
+theorem deconv_nonneg (top : F) (b : Bool) (signal resp : List F) (off la : Nat)
+    (res : List F) (sum : F) (inp : List F) (_hla : 0 < la)
+    (_hresp : ResponseNeg (fieldOps top) resp off la)
+    (h : nnGreedy (fieldOps top) b signal resp off la = .ok (res, sum, inp)) :
+    ∀ x ∈ inp, 0 ≤ x :=
+  deconv_nonneg_of_ok top b signal resp off la res sum inp h
+
+end OrderedField
+
+/-! ### 5b. The sweep, pads and wires -/
+
+theorem mem_grid (offLo offHi laLo laHi off la : Nat) :
+    (off, la) ∈ grid offLo offHi laLo laHi
+      ↔ (offLo ≤ off ∧ off ≤ offHi) ∧ (laLo ≤ la ∧ la ≤ laHi) := by
+  simp only [grid, List.mem_flatMap, List.mem_map, List.mem_range'_1, Prod.mk.injEq]
+  constructor
+  · rintro ⟨a, ha, b, hb, rfl, rfl⟩; omega
+  · intro h; exact ⟨off, by omega, la, by omega, rfl, rfl⟩
+
+/-- The sweep does not panic when no run does. -/
+theorem lsLoop_total (b : Bool) (signal resp : List α) (g : List (Nat × Nat))
+    (h : ∀ p ∈ g, ∃ t, nnGreedy o b signal resp p.1 p.2 = .ok t) (bestR : α) (best : List α) :
+    ∃ out, lsLoop o b signal resp g bestR best = .ok out := by
+  obtain ⟨runs, hruns⟩ := runs_exist (fun p => nnGreedy o b signal resp p.1 p.2) g h
+  exact ⟨_, lsLoop_eq_argminLoop o b signal resp g runs hruns bestR best⟩
+
+section OrderedField
+open Lean Grind Std
+variable {F : Type} [Field F] [LE F] [LT F] [LawfulOrderLT F] [IsLinearOrder F] [OrderedRing F]
+  [DecidableLT F] [DecidableLE F]
+
+/-- Non-negativity of the sweep's result from the sweep being ok alone. -/
+theorem deconv_nonneg_ls_of_ok (top : F) (b : Bool) (signal resp : List F)
+    (offLo offHi laLo laHi : Nat) (inp : List F)
+    (h : lsDeconvWith (fieldOps top) b signal resp offLo offHi laLo laHi = .ok inp) :
+    ∀ x ∈ inp, 0 ≤ x :=
+  lsLoop_invariant (fieldOps top) (fun l => ∀ x ∈ l, 0 ≤ x) b signal resp
+    (fun off la res r i0 hrun => deconv_nonneg_of_ok top b signal resp off la res r i0 hrun)
+    _ _ _ _ (by simp) h
+
+/-- **Non-negativity of `ls_deconvolution`.** If the response is negative on the window of every
+grid point and no look-ahead is `0`, the sweep does not panic and every sample of its result is
+`≥ 0`. -/
+theorem deconv_nonneg_ls (top : F) (b : Bool) (signal resp : List F)
+    (offLo offHi laLo laHi : Nat) (hla : 0 < laLo)
+    (hresp : ∀ off la, offLo ≤ off → off ≤ offHi → laLo ≤ la → la ≤ laHi →
+      ResponseNeg (fieldOps top) resp off la) :
+    ∃ inp, lsDeconvWith (fieldOps top) b signal resp offLo offHi laLo laHi = .ok inp
+      ∧ ∀ x ∈ inp, 0 ≤ x := by
+  obtain ⟨inp, h⟩ := lsLoop_total (fieldOps top) b signal resp (grid offLo offHi laLo laHi)
+    (by
+      rintro ⟨off, la⟩ hp
+      obtain ⟨⟨h1, h2⟩, h3, h4⟩ := (mem_grid _ _ _ _ _ _).mp hp
+      obtain ⟨res, sum, inp, h⟩ := nnGreedy_total (fieldOps top) b signal resp off la
+        (by omega) (hresp off la h1 h2 h3 h4)
+      exact ⟨_, h⟩)
+    top []
+  exact ⟨inp, h, deconv_nonneg_ls_of_ok top b signal resp offLo offHi laLo laHi inp h⟩
+
+/-- `pad_deconvolution`: offsets `3..=5`, look-aheads `7..=12`. -/
+theorem deconv_nonneg_pad (top : F) (padResp signal : List F)
+    (hresp : ∀ off la, 3 ≤ off → off ≤ 5 → 7 ≤ la → la ≤ 12 →
+      ResponseNeg (fieldOps top) padResp off la) :
+    ∃ inp, padDeconv (fieldOps top) padResp signal = .ok inp ∧ ∀ x ∈ inp, 0 ≤ x :=
+  deconv_nonneg_ls top true signal padResp 3 5 7 12 (by omega) hresp
+
+/-- The per-wire sweep of `wire_range_deconvolution`: offsets `0..=1`, look-aheads `3..=12`. -/
+theorem deconv_nonneg_wire (top : F) (wireResp signal : List F)
+    (hresp : ∀ off la, 0 ≤ off → off ≤ 1 → 3 ≤ la → la ≤ 12 →
+      ResponseNeg (fieldOps top) wireResp off la) :
+    ∃ inp, wireDeconv (fieldOps top) wireResp signal = .ok inp ∧ ∀ x ∈ inp, 0 ≤ x :=
+  deconv_nonneg_ls top true signal wireResp 0 1 3 12 (by omega) hresp
+
+theorem deconv_nonneg_pad_of_ok (top : F) (padResp signal inp : List F)
+    (h : padDeconv (fieldOps top) padResp signal = .ok inp) : ∀ x ∈ inp, 0 ≤ x :=
+  deconv_nonneg_ls_of_ok top true signal padResp 3 5 7 12 inp h
+
+theorem deconv_nonneg_wire_of_ok (top : F) (wireResp signal inp : List F)
+    (h : wireDeconv (fieldOps top) wireResp signal = .ok inp) : ∀ x ∈ inp, 0 ≤ x :=
+  deconv_nonneg_ls_of_ok top true signal wireResp 0 1 3 12 inp h
+
+/-- Every sample of every channel of a deconvolved block of wires is `≥ 0` (whatever the
+Cholesky step `cholSolve` does). -/
+theorem deconv_nonneg_wires (top : F)
+    (cholSolve : Nat → Nat → (Nat → Nat → F) → (Nat → Nat → F))
+    (wireResp : List F) (block out : List (Nat × List F))
+    (h : wireRangeDeconv (fieldOps top) cholSolve wireResp block = .ok out) :
+    ∀ p ∈ out, ∀ x ∈ p.2, 0 ≤ x := by
+  unfold wireRangeDeconv at h
+  split at h
+  · rename_i sol hsol
+    injection h with h; subst h
+    rintro ⟨a, s⟩ hp
+    have hs' : s ∈ sol := (List.of_mem_zip hp).2
+    unfold wireSignalsDeconv at hsol
+    split at hsol
+    · cases hsol
+    · have hs := sequence_eq_ok _ _ hsol
+      have : Outcome.ok s ∈ sol.map (Outcome.ok (ε := Unit)) := List.mem_map.mpr ⟨s, hs', rfl⟩
+      rw [← hs] at this
+      obtain ⟨column, _, hc⟩ := List.mem_map.mp this
+      exact deconv_nonneg_wire_of_ok top wireResp _ s hc
+  · cases h
+  · cases h
+
+end OrderedField
+
+/-! ### 6. Non-vacuity (over `Rat`, `top = 1000`) -/
+
+instance (resp : List α) (off la : Nat) : Decidable (ResponseNeg o resp off la) := by
+  unfold ResponseNeg; exact inferInstance
+
+/-- The hypotheses of `deconv_nonneg` hold for a short front-heavy negative response. -/
+example : ResponseNeg (fieldOps (1000 : Rat)) [-2, -1, -1] 0 2 ∧ 0 < 2 :=
+  ⟨by decide +kernel, by omega⟩
+
+/-- … the run is then ok (`nnGreedy_total`), here on the response convolved with `[1,0,2,0,0]`;
+the input is recovered exactly, residual `0`, both loops. -/
+example : ∀ b, nnGreedy (fieldOps (1000 : Rat)) b [-2, -1, -5, -2, -2] [-2, -1, -1] 0 2
+    = .ok ([0, 0, 0, 0, 0], 0, [1, 0, 2, 0, 0]) := by decide +kernel
+
+/-- A run with a non-zero residual. -/
+example : nnGreedy (fieldOps (1000 : Rat)) true [-2, -1, -5, -3, -2, 1] [-2, -1, -1] 0 2
+    = .ok ([0, 0, 0, -1, 0, 1], 2, [1, 0, 2, 0, 0, 0]) := by decide +kernel
+
+/-- `ls_first_strict_min` on a 2 × 2 grid: the residual sums are `5/2, 2, 98, 42` in grid order;
+the second run (the first one attaining the minimum `2`) wins. -/
+example : (grid 0 1 1 2).map (fun p =>
+      nnGreedy (fieldOps (1000 : Rat)) true [-2, -1, -5, -3, -2, 1] [-2, -1, -1] p.1 p.2)
+    = [([0, 0, 0, 0, 1/2, 3/2], 5/2, [1, 0, 2, 1/2, 0, 0]),
+       ([0, 0, 0, -1, 0, 1], 2, [1, 0, 2, 0, 0, 0]),
+       ([0, 8, 0, 5, 0, 3], 98, [1, 4, 0, 2, 0, 0]),
+       ([0, 6, -1, 0, -2, 1], 42, [1, 3, 0, 0, 0, 0])].map .ok := by decide +kernel
+
+example : lsDeconvWith (fieldOps (1000 : Rat)) true [-2, -1, -5, -3, -2, 1] [-2, -1, -1] 0 1 1 2
+    = .ok [1, 0, 2, 0, 0, 0] := by decide +kernel
+
+/-- The hypotheses of `deconv_nonneg_ls` for that grid. -/
+example : ∀ off la, 0 ≤ off → off ≤ 1 → 1 ≤ la → la ≤ 2 →
+    ResponseNeg (fieldOps (1000 : Rat)) [-2, -1, -1] off la := by
+  intro off la _ h1 h2 h3
+  have : off = 0 ∨ off = 1 := by omega
+  have : la = 1 ∨ la = 2 := by omega
+  rcases ‹off = 0 ∨ off = 1› with rfl | rfl <;> rcases ‹la = 1 ∨ la = 2› with rfl | rfl <;>
+    decide +kernel
+
+/-- `deconv_nonneg` applied to the run above. -/
+example : ∀ x ∈ [1, 0, 2, 0, 0, 0], (0 : Rat) ≤ x :=
+  deconv_nonneg 1000 true [-2, -1, -5, -3, -2, 1] [-2, -1, -1] 0 2 [0, 0, 0, -1, 0, 1] 2 _
+    (by omega) (by decide +kernel) (by decide +kernel)
+
+/-- `ls_first_strict_min` applied to the 2 × 2 sweep above: its second alternative holds with
+`j = 1`. -/
+example :=
+  ls_first_strict_min (1000 : Rat) true [-2, -1, -5, -3, -2, 1] [-2, -1, -1] 0 1 1 2
+    [([0, 0, 0, 0, 1/2, 3/2], 5/2, [1, 0, 2, 1/2, 0, 0]),
+     ([0, 0, 0, -1, 0, 1], 2, [1, 0, 2, 0, 0, 0]),
+     ([0, 8, 0, 5, 0, 3], 98, [1, 4, 0, 2, 0, 0]),
+     ([0, 6, -1, 0, -2, 1], 42, [1, 3, 0, 0, 0, 0])] (by decide +kernel)
 
 end AlphaG.Deconv
